@@ -11,8 +11,8 @@
    Names are kept in ENCODED form (the bytes stored in the file); `SHIFT_JIS.decode` / `UTF_8.decode`
    report `errors` exactly when the bytes are malformed, which is [sjis_valid] / [utf8_valid] below
    (assumption A-codec: UTF-8 well-formedness is the Unicode table 3-7; for Shift-JIS the structural
-   rule of the WHATWG decoder, every lead/trail pair used being assigned in JIS X 0208 -- the
-   generators only use such pairs; BOM sniffing of `Encoding::decode` is not modelled: BCH/CGFX were
+   rule of the WHATWG decoder, exact on the names the format relation admits: [sjis_encoded] below, the
+   encodings of strings, table checked against encoding_rs on every run; BOM sniffing of `Encoding::decode` is not modelled: BCH/CGFX were
    repaired to decode without it (finding F20), an encoded Shift-JIS string never starts with a BOM). *)
 From Coq Require Import List NArith ZArith Arith Bool.
 From Mila Require Import Lib.Bytes Lib.Machine Model.Pixel Model.Etc1.
@@ -85,9 +85,59 @@ Fixpoint sjis_valid (bs : bytes) : bool :=
     else false
   end.
 
+(* The byte strings that ARE Shift-JIS encodings of strings (the image of encoding_rs' encoder = the strings that decode
+   without error and encode back to themselves): per character a single byte 00..80 / A1..DF or one of the assigned,
+   canonical lead/trail pairs below.  The table is compared with encoding_rs on all 65536 two-byte strings and all 256
+   single bytes on every run of the check (case kind `ctpk codec`).  Used by the FORMAT relation (a stored CTPK name is
+   the encoding of a string); the reader model keeps the structural rule [sjis_valid], of which this is a restriction. *)
+Definition sjis_pair (l t : N) : bool :=
+  match l with
+  | 0x81 => inr 0x40 0x7E t || inr 0x80 0xAC t || inr 0xB8 0xBF t || inr 0xC8 0xCE t || inr 0xDA 0xE8 t || inr 0xF0 0xF7 t || (t =? 0xFC)
+  | 0x82 => inr 0x4F 0x58 t || inr 0x60 0x79 t || inr 0x81 0x9A t || inr 0x9F 0xF1 t
+  | 0x83 => inr 0x40 0x7E t || inr 0x80 0x96 t || inr 0x9F 0xB6 t || inr 0xBF 0xD6 t
+  | 0x84 => inr 0x40 0x60 t || inr 0x70 0x7E t || inr 0x80 0x91 t || inr 0x9F 0xBE t
+  | 0x87 => inr 0x40 0x5D t || inr 0x5F 0x75 t || (t =? 0x7E) || inr 0x80 0x8F t || inr 0x93 0x94 t || inr 0x98 0x99 t
+  | 0x88 => inr 0x9F 0xFC t
+  | 0x98 => inr 0x40 0x72 t || inr 0x9F 0xFC t
+  | 0xEA => inr 0x40 0x7E t || inr 0x80 0xA4 t
+  | 0xFA => inr 0x40 0x49 t || inr 0x55 0x57 t || inr 0x5C 0x7E t || inr 0x80 0xFC t
+  | 0xFC => inr 0x40 0x4B t
+  | _ => (inr 0x89 0x97 l || inr 0x99 0x9F l || inr 0xE0 0xE9 l || (l =? 0xFB)) && sjis_trail t
+  end.
+Fixpoint sjis_encoded (bs : bytes) : bool :=
+  match bs with
+  | [] => true
+  | b0 :: r0 =>
+    if (b0 <=? 0x80) || inr 0xA1 0xDF b0 then sjis_encoded r0
+    else match r0 with b1 :: r1 => sjis_pair b0 b1 && sjis_encoded r1 | [] => false end
+  end.
+(* a CTPK name: the encoding of a string (which the reader's structural rule accepts) *)
+Definition sjis_name (bs : bytes) : bool := sjis_encoded bs && sjis_valid bs.
+
 (* read the name at p and decode it: Err BadText on malformed text *)
 Definition read_name (valid : bytes -> bool) (f : bytes) (p : N) : outcome bytes :=
   let s := raw_name f p in if valid s then Ok s else Err EEncoding.
+
+(* ---------------------------------------------------------------- the f32 payload size of ctpk.rs / bch.rs
+   `(get_pixel_format_bpp(fmt) * w as f32 * h as f32) as usize` with w, h < 2^16 (u16 fields): bpp is one of
+   4, 3, 2, 1, 0.5, 0, so `bpp * w` is exact in binary32; the second product is the exact real bpp*w*h rounded
+   to nearest-even to 24 significant bits; `as usize` truncates.  With q = 2*bpp*w*h (an integer, [bpp2 fmt * w * h]):
+   the request is rne24 q / 2.  (Assumption A-float is now only: Rust's f32 multiplication is IEEE-754 binary32
+   round-to-nearest-even and `as usize` truncates; the values stay far from the subnormal and overflow ranges.) *)
+Definition rne24 (q : N) : N :=
+  let s := N.log2 q - 23 in
+  if s =? 0 then q
+  else
+    let m := q / 2 ^ s in
+    let r := q mod 2 ^ s in
+    let half := 2 ^ (s - 1) in
+    (if (half <? r) || ((r =? half) && N.odd m) then m + 1 else m) * 2 ^ s.
+Definition payload_size32 (format width height : N) : N := rne24 (bpp2 format * width * height) / 2.
+(* the request equals the true payload size *)
+Definition f32_exact (t : tex) : Prop :=
+  payload_size32 (t_fmt t) (t_w t) (t_h t) = payload_size (t_fmt t) (t_w t) (t_h t).
+Definition f32_exactb (t : tex) : bool :=
+  payload_size32 (t_fmt t) (t_w t) (t_h t) =? payload_size (t_fmt t) (t_w t) (t_h t).
 
 (* ---------------------------------------------------------------- decoding of one stored texture *)
 (* 3DS containers: texture_decoder::decode_pixel_data on the texture's own payload *)
